@@ -133,9 +133,7 @@ protected:
   template <bool A                             = EdgeDataByValue,
             typename std::enable_if<!A>::type* = nullptr>
   void createEdgeData(const uint64_t e_new, const uint64_t e) {
-    if (!std::is_void<EdgeTy>::value) {
-      inEdgeData[e_new] = e;
-    }
+    inEdgeData[e_new] = e;
   }
 
   /**
@@ -186,7 +184,9 @@ protected:
     // allocate edge dests and data
     inEdgeDst.allocateInterleaved(BaseGraph::numEdges);
 
-    if (!std::is_void<EdgeTy>::value) {
+    // by reference, the in-edges always keep the index of their out-edge (the
+    // in-edge sorters permute it together with the destinations)
+    if (!EdgeDataByValue || !std::is_void<EdgeTy>::value) {
       inEdgeData.allocateInterleaved(BaseGraph::numEdges);
     }
 
